@@ -27,7 +27,7 @@ type c15Case struct {
 func init() {
 	engine.Register(&engine.Check{
 		ID: "C15", Level: "exploration",
-		Rule:        "2D: every point x every segment and every pair of segments (degenerate ones included) on the 4x4 (thorough 5x5) integer grid, also scaled by 2^20 and translated; point-to-linestring for every polyline of <=3 vertices x every point; perpendicular distance for lines through two distinct points. 3D: every pair of segments with endpoints in {0,1,2}^3 - zero-length first/second/both, parallel, collinear, crossing, touching, skew, optimum outside the unit square in both parameters - plus scaled copies; every point x segment; Z = NaN for xyz.Distance. Oracle: exact rational squared distance (3D by exact minimisation over the clamped parameter square); |result - sqrt(exact)| <= 1e-9 x coordinate scale; never NaN; symmetric in argument order and direction. distinct_nontrivial = distinct argument tuples with non-zero exact distance or touching sets Also: point-to-linestring on 'star' zig-zags with every vertex count 2..70 and 96..1003 in strides 2..5, and long, nearly parallel 3D segments on the grid up to 2^20 (crossing, touching or skew by a few lattice steps); 2D lattice points on and one step beside long segments with rough integer coordinates up to 2^20 (point-segment, point-linestring, collinear segment pairs).",
+		Rule:        "2D: every point x every segment and every pair of segments (degenerate ones included) on the 4x4 (thorough 5x5) integer grid, also scaled by 2^20 and translated; point-to-linestring for every polyline of <=3 vertices x every point; perpendicular distance for lines through two distinct points. 3D: every pair of segments with endpoints in {0,1,2}^3 - zero-length first/second/both, parallel, collinear, crossing, touching, skew, optimum outside the unit square in both parameters - plus scaled copies; every point x segment; Z = NaN for xyz.Distance. Oracle: exact rational squared distance (3D by exact minimisation over the clamped parameter square); |result - sqrt(exact)| <= 1e-9 x coordinate scale; never NaN; symmetric in argument order and direction. distinct_nontrivial = distinct argument tuples with non-zero exact distance or touching sets Also: point-to-linestring on 'star' zig-zags with every vertex count 2..70 and 96..1003 in strides 2..5, and long, nearly parallel 3D segments on the grid up to 2^20 (crossing, touching or skew by a few lattice steps); 2D lattice points on and one step beside long segments with rough integer coordinates up to 2^20 (point-segment, point-linestring, collinear segment pairs); ~1000 exactly axis-parallel segments crossed properly by rough segments on grids [-2^k,2^k], k=17..20.",
 		Run:         c15Run,
 		Replay:      func(c *engine.Ctx, kind string, raw json.RawMessage) { c15Exec(c, decodeCase[c15Case](raw)) },
 		Assumptions: []string{"integer-grid ordinates up to 2^20 (exact squared distances); perpendicular distance only for distinct line points"},
@@ -361,6 +361,19 @@ func c15Run(c *engine.Ctx) {
 				c15Exec(c, c15Case{Mode: "seg-seg2", V: []ref.F{ref.F(a[0]), ref.F(a[1]), ref.F(b[0]), ref.F(b[1]), ref.F(q[0]), ref.F(q[1]), ref.F(e[0]), ref.F(e[1])}})
 			}
 		}
+	})
+	// 2D: an exactly horizontal or vertical segment crossed properly by a rough one on grids up to
+	// 2^20 (distance 0), in both argument orders
+	apc := axisParallelCrossings()
+	c.Parallel(len(apc), func(i int) {
+		t := apc[i]
+		v := make([]ref.F, 8)
+		for k := range t {
+			v[k] = ref.F(t[k])
+		}
+		c.Count("axis_parallel_cases", 1)
+		c15Exec(c, c15Case{Mode: "seg-seg2", V: v})
+		c15Exec(c, c15Case{Mode: "seg-seg2", V: []ref.F{v[6], v[7], v[4], v[5], v[2], v[3], v[0], v[1]}})
 	})
 	if c.Get("touching") == 0 || c.Get("apart") == 0 {
 		c.Warn("vacuous: touching or apart class empty")
